@@ -316,6 +316,16 @@ def run_exe(exe, lines, workdir, tag, extra_args=None, timeout=3000):
             if len(o) != want:
                 o = o + ["CRASH rc=%s %s" % (rc, err.strip()[-200:].replace("\n", " "))] * (want - len(o))
             outs.extend(o[:want])
+    keep = os.environ.get("VERIF_KEEP_CASES")
+    if keep and os.path.basename(exe) == "sqv-harness":
+        # tools/coverage.sh replays the kept case files on a coverage-instrumented harness
+        os.makedirs(keep, exist_ok=True)
+        for p in files:
+            try:
+                os.replace(p, os.path.join(keep, os.path.basename(p)))
+            except OSError:
+                pass
+        return outs
     for p in files:
         os.remove(p)
     return outs
